@@ -152,10 +152,21 @@ fn roundtrip_oracle(seed: u64, thorough: bool, only: Option<(K, Vec<u8>)>) -> Or
     for k in all {
         // exhaustive short inputs: up to length 3 for the two ASCII encoders, up to length 2 (+ a sample of
         // length 3) for the compressors in the quick tier, everything up to length 3 in the thorough tier
-        let full3 = thorough || matches!(k, K::Hex | K::A85);
+        // LZW: pdf-rs drives weezl through `into_stream`, which allocates a 16 MiB buffer per call (≈ 2.4 ms);
+        // all 2^24 inputs of length 3 take ≈ 45 min on 16 cores and run only with VERIF_C16_LZW_FULL=1
+        let lzw_full = std::env::var("VERIF_C16_LZW_FULL").map(|v| v == "1").unwrap_or(false);
+        let full3 = (thorough && (k != K::Lzw || lzw_full)) || matches!(k, K::Hex | K::A85);
         if full3 {
             par_run(k, UPTO3, &index_to_bytes, "len0-3", seed, &mut or);
             or.count(&format!("{}: all inputs of length 0..3 = {}", k.name(), UPTO3));
+        } else if k == K::Lzw && thorough {
+            par_run(k, UPTO2, &index_to_bytes, "len0-2", seed, &mut or);
+            // every length-3 input over a 64-value alphabet (all equality patterns, both ends of the byte range)
+            let cube = |i: u64| -> Vec<u8> { let a = |j: u64| -> u8 { let v = (j % 64) as u8; if v < 32 { v } else { 255 - (v - 32) } }; vec![a(i / 4096), a(i / 64), a(i)] };
+            par_run(k, 64 * 64 * 64, &cube, "len3-cube64", seed, &mut or);
+            let gen3 = move |i: u64| { let mut rng = Rng::derive(seed, "c16.len3", i * 4 + k as u64); rng.bytes(3) };
+            par_run(k, 400_000, &gen3, "len3-sample", seed, &mut or);
+            or.count("lzw: all inputs of length 0..2 = 65793, all length-3 inputs over a 64-value alphabet = 262144, 400000 sampled inputs of length 3 (all 2^24 with VERIF_C16_LZW_FULL=1)");
         } else if k == K::Lzw {
             // weezl sets up its tables on every call (~0.5 ms): the quick tier samples lengths 2 and 3
             par_run(k, 257, &index_to_bytes, "len0-1", seed, &mut or);
